@@ -136,6 +136,7 @@ func (w *World) CIDs() map[string]string {
 func NewWorld(cfgs ...func(*server.Config)) *World {
 	w := &World{S: newSched(), labels: map[string]string{}}
 	w.MQ = &MockMQ{w: w}
+	w.S.OnSite = func(id, cid, rid string) { w.rec(Ev{Kind: "site", C: w.label(cid), Subj: id, Text: rid}) }
 	var cfg server.Config
 	cfg.SetDefault()
 	cfg.NoHTTP = true
